@@ -831,6 +831,7 @@ class exists_elim(Method):
 
     def apply(self, state: ProofState, id, data, prevs):
         assert len(prevs) == 1, "exists_elim"
+        assert state.get_proof_item(id).rule == "sorry", "exists_elim: id is not a gap"
 
         # Parse the list of variable names
         with context.fresh_context(vars=state.get_vars(id)):
@@ -868,7 +869,7 @@ class exists_elim(Method):
                         item.args = [exists_prop] + item.args
                     item.prevs = item.prevs[:-1] + new_intros + [item.prevs[-1]]
                     break
-                else:
+                elif item.rule not in ('assume', 'variable'):
                     state.set_line(id.incr_id(i), item.rule, args=item.args, prevs=item.prevs, \
                                    th=Thm(item.th.prop, item.th.hyps, body))
             i += 1
